@@ -164,7 +164,10 @@ def main():
             print("harness failure: %s" % e)
             return 2
         cmd = [binp] + cmd[1:]
-        r = run_shard(cmd, 3600)
+        renv = dict(os.environ)
+        for envname, (afl, ash) in rp.get("aux_bins", {}).items():
+            renv[envname] = build.harness(afl, shared=ash)
+        r = run_shard(cmd, 3600, renv)
         sys.stdout.write(r["out"][-20000:])
         return 1 if '"ev":"violation"' in r["out"] else 0
 
@@ -176,6 +179,10 @@ def main():
             fk = (run.get("flavour", "base"), bool(run.get("shared")))
             if fk not in bins:
                 bins[fk] = build.harness(fk[0], shared=fk[1])
+            for envname, (afl, ash) in run.get("aux_bins", {}).items():
+                if (afl, ash) not in bins:
+                    bins[(afl, ash)] = build.harness(afl, shared=ash)
+                run.setdefault("env", {})[envname] = bins[(afl, ash)]
     except Exception as e:  # noqa: BLE001
         print("harness failure: build: %s" % str(e)[-3000:])
         write_evidence(prop, plan, tier, seed, agg, t0, [], inconclusive="build failed")
@@ -266,6 +273,8 @@ def main():
                 rec["cmd"] = cmd
                 rec["flavour"] = run.get("flavour", "base")
                 rec["shared"] = bool(run.get("shared"))
+                if run.get("aux_bins"):
+                    rec["aux_bins"] = run["aux_bins"]
                 break
         json.dump(rec, open(rp, "w"), indent=1, default=str)
         print("VIOLATION property=%s replay=%s" % (p, rp))
